@@ -8,6 +8,9 @@
  * oracle is the offline checker harness/nego_ref.py (Python, no shared code).
  * Scripted ClientHellos (no client engine) cover what a BearSSL client cannot
  * send; for them the log carries the raw hello and the checker decodes it.
+ * Scripted ServerHellos (no server engine) do the same for a client engine:
+ * honest, odd and hostile answers to its ClientHello; the log carries the
+ * records fed to the client and what the client reports afterwards.
  *
  * Only counters / distinct tokens / samples go through the stdout protocol.
  */
@@ -41,8 +44,9 @@ typedef struct {
 static const int curve_ids[4] = { 23, 24, 25, 29 };
 /* several names are proper prefixes of others: matching must be exact */
 static const char *alpn_universe[8] = { "h2", "http/1.1", "spdy/3", "x-verif", "h2c", "http/1", "spdy/3.1", "x" };
-static const char *kind_names[] = { "versions", "single", "pair", "flags", "subsets", "alpn-sni", "random", "scripted" };
-enum { K_VERSIONS, K_SINGLE, K_PAIR, K_FLAGS, K_SUBSETS, K_ALPN, K_RANDOM, K_SCRIPTED };
+static const char *kind_names[] = { "versions", "single", "pair", "flags", "subsets", "alpn-sni", "random", "scripted", "scripted_srv" };
+enum { K_VERSIONS, K_SINGLE, K_PAIR, K_FLAGS, K_SUBSETS, K_ALPN, K_RANDOM, K_SCRIPTED, K_SCRIPTED_SRV };
+#define NSLOTS 9   /* case idx -> slot idx % NSLOTS -> kind; q = idx / NSLOTS enumerates within a kind */
 
 /* name-check bypass: the fixture certificates carry localhost / www.example.com only */
 static void
@@ -276,8 +280,8 @@ apply_hashes(side *sd, unsigned hashes)
 static void
 gen_case(vf_rng *r, long long seed, long idx, int *kind_out, side *C, side *S)
 {
-	long q = idx / 8;
-	int k = (int)(idx % 8), kind;
+	long q = idx / NSLOTS;
+	int k = (int)(idx % NSLOTS), kind;
 	int vi;
 
 	memset(C, 0, sizeof *C); memset(S, 0, sizeof *S);
@@ -288,7 +292,8 @@ gen_case(vf_rng *r, long long seed, long idx, int *kind_out, side *C, side *S)
 	case 4: kind = K_FLAGS; break;
 	case 5: kind = K_SUBSETS; break;
 	case 6: kind = (q & 1) ? K_ALPN : K_RANDOM; break;
-	default: kind = K_SCRIPTED; break;
+	case 7: kind = K_SCRIPTED; break;
+	default: kind = K_SCRIPTED_SRV; break;
 	}
 	*kind_out = kind;
 
@@ -421,6 +426,15 @@ js_hex(FILE *f, const char *key, const unsigned char *p, size_t n, int present)
 	size_t i;
 	fprintf(f, "\"%s\":", key);
 	if (!present) { fputs("null", f); return; }
+	fputc('"', f);
+	for (i = 0; i < n; i ++) fprintf(f, "%02x", p[i]);
+	fputc('"', f);
+}
+
+static void
+js_hexv(FILE *f, const unsigned char *p, size_t n)
+{
+	size_t i;
 	fputc('"', f);
 	for (i = 0; i < n; i ++) fprintf(f, "%02x", p[i]);
 	fputc('"', f);
@@ -849,6 +863,541 @@ run_scripted(long long seed, long idx, side *S, vf_rng *r)
 }
 
 /* ------------------------------------------------------------------ */
+/* scripted ServerHello against a client engine */
+
+typedef struct { side *sd; int nosig; int has_sess; br_ssl_session_parameters sess; } srv_hook;
+
+static void
+pre_reset_srv(void *epv, void *arg)
+{
+	tp_ep *ep = epv;
+	srv_hook *h = arg;
+	pre_reset(epv, h->sd);
+	if (h->nosig) {
+		/* a client that verifies no signature itself (static RSA / static ECDH suites only): no signature_algorithms */
+		br_ssl_engine_set_rsavrfy(ep->eng, 0);
+		br_ssl_engine_set_ecdsa(ep->eng, 0);
+	}
+	/* a remembered session: the ClientHello offers its ID (br_ssl_client_reset with resume_session = 1) */
+	if (h->has_sess) br_ssl_engine_set_session_parameters(ep->eng, &h->sess);
+}
+
+/* keep the suites of the client list whose key exchange is in the mask (bit kx); signalling values stay */
+static void
+keep_kx(side *sd, unsigned kxmask)
+{
+	size_t i, n = 0;
+	for (i = 0; i < sd->nsuites; i ++) {
+		const tp_suite_info *s = tp_suite_find(sd->suites[i]);
+		if (s == NULL || ((kxmask >> s->kx) & 1)) sd->suites[n ++] = sd->suites[i];
+	}
+	sd->nsuites = n;
+	if (real_suites(sd) == 0) {
+		sd->hashes = HASHES_ALL;
+		sd->nsuites = 0;
+		for (i = 0; i < TP_NSUITES; i ++) if ((kxmask >> tp_suites[i].kx) & 1) sd->suites[sd->nsuites ++] = tp_suites[i].id;
+	}
+}
+
+enum {
+	D_VER_LOW, D_VER_HIGH, D_RV, D_RV_MAJOR,
+	D_SUITE_NOTOFF, D_SUITE_UNKNOWN, D_SUITE_GREASE, D_SUITE_TLS12, D_SUITE_00FF, D_SUITE_5600,
+	D_COMP, D_SID33,
+	D_RENEG_DATA, D_RENEG_LEN, D_SNI_DATA, D_SNI_UNSOL, D_MFL_OTHER, D_MFL_UNSOL, D_MFL_LEN,
+	D_ALPN_OTHER, D_ALPN_TWO, D_ALPN_EMPTYLIST, D_ALPN_BADLEN, D_ALPN_UNSOL, D_ALPN_EMPTYNAME,
+	D_SIG_UNSOL, D_CURVES_UNSOL, D_POINTS_UNSOL, D_EXT_UNKNOWN, D_EXT_DUP,
+	D_BLOCKLEN, D_TRAIL, D_MSG_SHORT, D_MSG_LONG, D_RV2, D_NEXT_TYPE, D_NEXT_CCS,
+	D_RESUME_VER, D_RESUME_SUITE, D_RESUME_BAD_CCS, D_RESUME_NO_CCS, D_COUNT
+};
+static const char *defect_names[D_COUNT] = {
+	"ver-low", "ver-high", "record-version", "record-major",
+	"suite-not-offered", "suite-unknown", "suite-grease", "suite-tls12-only", "suite-00ff", "suite-5600",
+	"compression", "id-33",
+	"reneg-data", "reneg-length", "sni-data", "sni-unsolicited", "mfl-other", "mfl-unsolicited", "mfl-length",
+	"alpn-other", "alpn-two", "alpn-empty-list", "alpn-bad-length", "alpn-unsolicited", "alpn-empty-name",
+	"sig-unsolicited", "curves-unsolicited", "points-unsolicited", "ext-unknown", "ext-duplicate",
+	"block-length", "trailing", "msg-short", "msg-long", "record2-version", "next-type", "next-ccs",
+	"resume-version", "resume-suite", "resume-bad-ccs", "resume-no-ccs"
+};
+
+typedef struct { unsigned type; unsigned char b[320]; size_t n; } xent;
+
+typedef struct {
+	const side *C;
+	int nosig, mfl_code;              /* mfl_code 0: the client sends no max_fragment_length */
+	int sent_sni, sent_alpn, sent_curves;
+	int has_sess; unsigned sver, ssuite; unsigned char sid[32];   /* the session the client tries to resume */
+} cli_facts;
+
+static int
+in_list(const side *C, unsigned v)
+{
+	size_t i;
+	for (i = 0; i < C->nsuites; i ++) if (C->suites[i] == v) return 1;
+	return 0;
+}
+
+static int
+alpn_offered(const side *C, const char *nm)
+{
+	size_t i;
+	for (i = 0; i < C->nalpn; i ++) if (strcmp(C->alpn[i], nm) == 0) return 1;
+	return 0;
+}
+
+static const char *
+alpn_foreign(vf_rng *r, const side *C)
+{
+	static const char *extra[] = { "zz", "h", "http/1.0", "H2" };
+	int t;
+	for (t = 0; t < 64; t ++) {
+		unsigned k = vf_below(r, 12);
+		const char *nm = k < 8 ? alpn_universe[k] : extra[k - 8];
+		if (!alpn_offered(C, nm)) return nm;
+	}
+	return "zz";
+}
+
+static int
+defect_applicable(int d, const cli_facts *f)
+{
+	const side *C = f->C;
+	size_t i;
+	switch (d) {
+	case D_SUITE_NOTOFF: return real_suites(C) < (int)TP_NSUITES;
+	case D_SUITE_TLS12:
+		if (C->vmin >= 0x0303) return 0;
+		for (i = 0; i < C->nsuites; i ++) { const tp_suite_info *s = tp_suite_find(C->suites[i]); if (s && s->tls12only) return 1; }
+		return 0;
+	case D_SNI_DATA: return f->sent_sni;
+	case D_SNI_UNSOL: return !f->sent_sni;
+	case D_MFL_OTHER: case D_MFL_LEN: return f->mfl_code != 0;
+	case D_MFL_UNSOL: return f->mfl_code == 0;
+	case D_ALPN_OTHER: case D_ALPN_TWO: case D_ALPN_EMPTYLIST: case D_ALPN_BADLEN: case D_ALPN_EMPTYNAME: return f->sent_alpn;
+	case D_ALPN_UNSOL: return !f->sent_alpn;
+	case D_SIG_UNSOL: return f->nosig;
+	case D_CURVES_UNSOL: case D_POINTS_UNSOL: return !f->sent_curves;
+	case D_RESUME_VER: return f->has_sess && C->vmin < C->vmax;
+	case D_RESUME_SUITE: return f->has_sess && real_suites(C) > 1;
+	case D_RESUME_BAD_CCS: case D_RESUME_NO_CCS: return f->has_sess;
+	default: return 1;
+	}
+}
+
+static void
+alpn_body(xent *e, const char *a, const char *b)
+{
+	size_t la = strlen(a), lb = b ? strlen(b) : 0, tot = 1 + la + (b ? 1 + lb : 0);
+	e->type = 0x0010; e->n = 0;
+	e->b[e->n ++] = (unsigned char)(tot >> 8); e->b[e->n ++] = (unsigned char)tot;
+	e->b[e->n ++] = (unsigned char)la; memcpy(e->b + e->n, a, la); e->n += la;
+	if (b) { e->b[e->n ++] = (unsigned char)lb; memcpy(e->b + e->n, b, lb); e->n += lb; }
+}
+
+/*
+ * Build the server's flight: a ServerHello (record version *rv) and possibly the
+ * start of the next message in a second record (*rv2; n2 = 0: no second record).
+ */
+static void
+build_server_hello(vf_rng *r, const cli_facts *f, const int *defs, int ndefs, bb *h, unsigned *rv, bb *h2, unsigned *rv2, unsigned *type2)
+{
+	static const unsigned unknown_suites[] = { 0x1301, 0x1302, 0x0005, 0x0004, 0x0033, 0x009E, 0xC0FF, 0x0000, 0xFFFF, 0xC011, 0x1303 };
+	static const unsigned unknown_exts[] = { 0x0017, 0x0023, 0x002B, 0x0005, 0x0015, 0x0012, 0x3374, 0x0033, 0xFF02, 0x0002 };
+	const side *C = f->C;
+	int has[D_COUNT];
+	xent xs[16];
+	int nx = 0, i, extmode, second, echo = 0;
+	unsigned ver, suite, comp = 0;
+	size_t sidlen, lenpos, j;
+
+	memset(has, 0, sizeof has);
+	for (i = 0; i < ndefs; i ++) has[defs[i]] = 1;
+
+	/* version, and a suite the client offers that fits it when there is one */
+	ver = C->vmin + vf_below(r, C->vmax - C->vmin + 1);
+	if (vf_below(r, 2)) ver = C->vmax;
+	if (has[D_SUITE_TLS12]) { unsigned top = C->vmax < 0x0302 ? C->vmax : 0x0302; ver = C->vmin + vf_below(r, top - C->vmin + 1); }
+	if (has[D_VER_LOW]) ver = (C->vmin > 0x0301 && vf_below(r, 2)) ? C->vmin - 1 : 0x0300;
+	if (has[D_VER_HIGH]) ver = (C->vmax < 0x0303 && vf_below(r, 3)) ? C->vmax + 1 + vf_below(r, 0x0303 - C->vmax) : (vf_below(r, 4) ? 0x0304 : 0x03FF);
+	{
+		uint16_t fit[96], reals[96]; size_t nfit = 0, nreal = 0, k;
+		int pass;
+		for (pass = 0; pass < 2 && nfit == 0; pass ++) {
+			nreal = 0;
+			for (k = 0; k < C->nsuites; k ++) {
+				const tp_suite_info *s = tp_suite_find(C->suites[k]);
+				if (!s) continue;
+				reals[nreal ++] = s->id;
+				if (ver >= 0x0303 || !s->tls12only) fit[nfit ++] = s->id;
+			}
+			/* only TLS-1.2 suites on offer: an honest server goes for TLS 1.2 */
+			if (nfit == 0 && pass == 0 && C->vmax >= 0x0303 && !has[D_VER_LOW] && !has[D_VER_HIGH] && !has[D_SUITE_TLS12]) ver = 0x0303;
+		}
+		suite = nfit ? fit[vf_below(r, (uint32_t)nfit)] : reals[vf_below(r, (uint32_t)nreal)];
+		if (has[D_SUITE_TLS12]) {
+			size_t n12 = 0;
+			for (k = 0; k < nreal; k ++) if (tp_suite_find(reals[k])->tls12only) fit[n12 ++] = reals[k];
+			if (n12) suite = fit[vf_below(r, (uint32_t)n12)];
+		}
+	}
+	*rv = ver;
+	if (has[D_RV]) { do { *rv = 0x0300 + vf_below(r, 5); } while (*rv == ver); }
+	if (has[D_RV_MAJOR]) *rv = vf_below(r, 2) ? 0x0200 + (ver & 0xFF) : 0x0400 + (ver & 0xFF);
+	/* the client offers a session: echo its ID (abbreviated handshake) with the session's version and suite, or ignore it */
+	if (f->has_sess && !has[D_SID33]) {
+		echo = vf_below(r, 100) < 55 || has[D_RESUME_VER] || has[D_RESUME_SUITE] || has[D_RESUME_BAD_CCS] || has[D_RESUME_NO_CCS];
+		if (echo) {
+			if (!has[D_VER_LOW] && !has[D_VER_HIGH] && !has[D_SUITE_TLS12]) { ver = f->sver; *rv = ver; }
+			suite = f->ssuite;
+			if (has[D_RESUME_VER]) {
+				int t;
+				for (t = 0; t < 50; t ++) {
+					ver = C->vmin + vf_below(r, C->vmax - C->vmin + 1);
+					if (ver != f->sver && (ver >= 0x0303 || !tp_suite_find((uint16_t)suite)->tls12only)) break;
+				}
+				*rv = ver;
+			}
+			if (has[D_RESUME_SUITE]) {
+				int t;
+				for (t = 0; t < 200; t ++) {
+					const tp_suite_info *si = tp_suite_find(C->suites[vf_below(r, (uint32_t)C->nsuites)]);
+					if (si && si->id != f->ssuite && (ver >= 0x0303 || !si->tls12only || t > 150)) { suite = si->id; break; }
+				}
+			}
+			if (has[D_RV]) { do { *rv = 0x0300 + vf_below(r, 5); } while (*rv == ver); }
+			if (has[D_RV_MAJOR]) *rv = vf_below(r, 2) ? 0x0200 + (ver & 0xFF) : 0x0400 + (ver & 0xFF);
+		}
+	}
+	if (has[D_SUITE_NOTOFF]) { int t; for (t = 0; t < 1000; t ++) { suite = tp_suites[vf_below(r, TP_NSUITES)].id; if (!in_list(C, suite)) break; } }
+	if (has[D_SUITE_UNKNOWN]) suite = unknown_suites[vf_below(r, 11)];
+	if (has[D_SUITE_GREASE]) suite = grease(r);
+	if (has[D_SUITE_00FF]) suite = 0x00FF;
+	if (has[D_SUITE_5600]) suite = 0x5600;
+	if (has[D_COMP]) { static const unsigned cm[] = { 1, 1, 64, 255 }; comp = cm[vf_below(r, 4)]; }
+	switch (vf_below(r, 5)) { case 0: case 1: sidlen = 0; break; case 2: case 3: sidlen = 32; break; default: sidlen = 1 + vf_below(r, 31); break; }
+	if (has[D_SID33]) sidlen = vf_below(r, 4) ? 33 : 34 + vf_below(r, 60);
+
+	/* honest extensions */
+	if (vf_below(r, 100) < 60 && !has[D_RENEG_DATA] && !has[D_RENEG_LEN]) { xs[nx].type = 0xFF01; xs[nx].b[0] = 0; xs[nx].n = 1; nx ++; }
+	if (f->sent_sni && vf_below(r, 100) < 30 && !has[D_SNI_DATA]) { xs[nx].type = 0x0000; xs[nx].n = 0; nx ++; }
+	if (f->mfl_code && vf_below(r, 100) < 55 && !has[D_MFL_OTHER] && !has[D_MFL_LEN]) { xs[nx].type = 0x0001; xs[nx].b[0] = (unsigned char)f->mfl_code; xs[nx].n = 1; nx ++; }
+	if (f->sent_alpn && vf_below(r, 100) < 65 && !has[D_ALPN_OTHER] && !has[D_ALPN_TWO] && !has[D_ALPN_EMPTYLIST] && !has[D_ALPN_BADLEN] && !has[D_ALPN_EMPTYNAME]) {
+		alpn_body(&xs[nx ++], C->alpn[vf_below(r, (uint32_t)C->nalpn)], NULL);
+	}
+	if (!f->nosig && vf_below(r, 100) < 10) {   /* "the server should never send this extension, but some existing servers do" */
+		static const unsigned char sg[] = { 0x00, 0x06, 0x04, 0x01, 0x04, 0x03, 0x02, 0x01 };
+		xs[nx].type = 0x000D; xs[nx].n = vf_below(r, 4) ? sizeof sg : vf_below(r, 12);
+		memcpy(xs[nx].b, sg, sizeof sg); for (j = sizeof sg; j < xs[nx].n; j ++) xs[nx].b[j] = (unsigned char)vf_below(r, 256);
+		nx ++;
+	}
+	if (f->sent_curves && vf_below(r, 100) < 10) {
+		static const unsigned char cv[] = { 0x00, 0x04, 0x00, 0x1D, 0x00, 0x17 };
+		xs[nx].type = 0x000A; xs[nx].n = vf_below(r, 4) ? sizeof cv : vf_below(r, 7);
+		memcpy(xs[nx].b, cv, sizeof cv);
+		nx ++;
+	}
+	if (f->sent_curves && vf_below(r, 100) < 25) {
+		xs[nx].type = 0x000B; xs[nx].b[0] = 1; xs[nx].b[1] = 0; xs[nx].b[2] = 1; xs[nx].n = vf_below(r, 4) ? 2 : 3; if (xs[nx].n == 3) xs[nx].b[0] = 2;
+		nx ++;
+	}
+
+	/* defective extensions */
+	if (has[D_RENEG_DATA]) {
+		size_t l = vf_below(r, 2) ? 12 : 1 + vf_below(r, 36);
+		xs[nx].type = 0xFF01; xs[nx].b[0] = (unsigned char)l; for (j = 0; j < l; j ++) xs[nx].b[1 + j] = (unsigned char)vf_below(r, 256);
+		xs[nx].n = 1 + l; nx ++;
+	}
+	if (has[D_RENEG_LEN]) {
+		xs[nx].type = 0xFF01;
+		switch (vf_below(r, 4)) {
+		case 0: xs[nx].n = 0; break;
+		case 1: xs[nx].b[0] = 0; xs[nx].b[1] = 0; xs[nx].n = 2; break;
+		case 2: xs[nx].b[0] = 1 + (unsigned char)vf_below(r, 40); xs[nx].n = 1; break;
+		default: xs[nx].b[0] = 5; xs[nx].b[1] = 1; xs[nx].b[2] = 2; xs[nx].n = 3; break;
+		}
+		nx ++;
+	}
+	if (has[D_SNI_DATA] || has[D_SNI_UNSOL]) {
+		xs[nx].type = 0x0000; xs[nx].n = 0;
+		if (has[D_SNI_DATA] || vf_below(r, 3) == 0) {
+			if (vf_below(r, 2)) { static const unsigned char sn[] = { 0x00, 0x05, 0x00, 0x00, 0x02, 'a', 'b' }; memcpy(xs[nx].b, sn, sizeof sn); xs[nx].n = sizeof sn; }
+			else { xs[nx].n = 1 + vf_below(r, 5); for (j = 0; j < xs[nx].n; j ++) xs[nx].b[j] = (unsigned char)vf_below(r, 256); }
+		}
+		nx ++;
+	}
+	if (has[D_MFL_OTHER]) {
+		static const unsigned alt[] = { 1, 2, 3, 4, 0, 5, 255 };
+		unsigned c;
+		do { c = alt[vf_below(r, 7)]; } while ((int)c == f->mfl_code);
+		xs[nx].type = 0x0001; xs[nx].b[0] = (unsigned char)c; xs[nx].n = 1; nx ++;
+	}
+	if (has[D_MFL_UNSOL]) { xs[nx].type = 0x0001; xs[nx].b[0] = (unsigned char)(1 + vf_below(r, 4)); xs[nx].n = 1; nx ++; }
+	if (has[D_MFL_LEN]) { xs[nx].type = 0x0001; xs[nx].b[0] = xs[nx].b[1] = (unsigned char)f->mfl_code; xs[nx].n = vf_below(r, 2) ? 0 : 2; nx ++; }
+	if (has[D_ALPN_OTHER]) alpn_body(&xs[nx ++], alpn_foreign(r, C), NULL);
+	if (has[D_ALPN_UNSOL]) alpn_body(&xs[nx ++], alpn_universe[vf_below(r, 8)], NULL);
+	if (has[D_ALPN_EMPTYNAME]) alpn_body(&xs[nx ++], "", NULL);
+	if (has[D_ALPN_TWO]) {
+		const char *a = C->alpn[vf_below(r, (uint32_t)C->nalpn)];
+		const char *b = (C->nalpn > 1 && vf_below(r, 2)) ? C->alpn[vf_below(r, (uint32_t)C->nalpn)] : alpn_foreign(r, C);
+		if (vf_below(r, 2)) alpn_body(&xs[nx ++], a, b); else alpn_body(&xs[nx ++], b, a);
+	}
+	if (has[D_ALPN_EMPTYLIST]) { xs[nx].type = 0x0010; xs[nx].b[0] = xs[nx].b[1] = 0; xs[nx].n = 2; nx ++; }
+	if (has[D_ALPN_BADLEN]) {
+		xent *e = &xs[nx ++];
+		alpn_body(e, C->alpn[vf_below(r, (uint32_t)C->nalpn)], NULL);
+		switch (vf_below(r, 5)) {
+		case 0: e->b[1] = (unsigned char)(e->b[1] + 1 + vf_below(r, 3)); break;     /* list longer than the extension */
+		case 1: e->b[1] = (unsigned char)(e->b[1] - 1); break;                       /* list shorter: a byte after the list */
+		case 2: e->b[2] = (unsigned char)(e->b[2] + 1 + vf_below(r, 3)); break;      /* name longer than the list */
+		case 3: e->n = 1; break;                                                      /* half a length field */
+		default: e->b[e->n ++] = 0; break;                                            /* a byte after the list, list length right */
+		}
+	}
+	if (has[D_SIG_UNSOL]) { static const unsigned char sg[] = { 0x00, 0x04, 0x04, 0x01, 0x02, 0x01 }; xs[nx].type = 0x000D; memcpy(xs[nx].b, sg, sizeof sg); xs[nx].n = sizeof sg; nx ++; }
+	if (has[D_CURVES_UNSOL]) { static const unsigned char cv[] = { 0x00, 0x02, 0x00, 0x17 }; xs[nx].type = 0x000A; memcpy(xs[nx].b, cv, sizeof cv); xs[nx].n = sizeof cv; nx ++; }
+	if (has[D_POINTS_UNSOL]) { xs[nx].type = 0x000B; xs[nx].b[0] = 1; xs[nx].b[1] = 0; xs[nx].n = 2; nx ++; }
+	if (has[D_EXT_UNKNOWN]) {
+		unsigned c = vf_below(r, 14);
+		xs[nx].type = c < 10 ? unknown_exts[c] : (c < 12 ? grease(r) : 0x1234 + vf_below(r, 1000));
+		xs[nx].n = vf_below(r, 3) ? 0 : vf_below(r, 40);
+		for (j = 0; j < xs[nx].n; j ++) xs[nx].b[j] = (unsigned char)vf_below(r, 256);
+		nx ++;
+	}
+	/* random order */
+	for (i = nx; i > 1; i --) { int u = (int)vf_below(r, (uint32_t)i); xent t = xs[i - 1]; xs[i - 1] = xs[u]; xs[u] = t; }
+	if (has[D_EXT_DUP]) {
+		int src, at;
+		if (nx == 0) { xs[nx].type = 0xFF01; xs[nx].b[0] = 0; xs[nx].n = 1; nx ++; }
+		src = (int)vf_below(r, (uint32_t)nx); at = (int)vf_below(r, (uint32_t)nx + 1);
+		for (i = nx; i > at; i --) xs[i] = xs[i - 1];
+		xs[at] = xs[src >= at ? src + 1 : src];
+		nx ++;
+	}
+	extmode = nx ? 2 : (vf_below(r, 100) < 30 ? 1 : 0);
+	if ((has[D_BLOCKLEN] || has[D_TRAIL]) && extmode == 0) extmode = 1;
+
+	/* the message */
+	h->n = 0;
+	b8(h, 2); b8(h, 0); lenpos = h->n; b16(h, 0);
+	b16(h, ver);
+	for (j = 0; j < 32; j ++) b8(h, vf_below(r, 256));
+	if (echo) { b8(h, 32); bput(h, f->sid, 32); }
+	else { b8(h, (unsigned)sidlen); for (j = 0; j < sidlen; j ++) b8(h, vf_below(r, 256)); }
+	b16(h, suite); b8(h, comp);
+	if (extmode) {
+		size_t xpos = h->n;
+		long bl;
+		b16(h, 0);
+		for (i = 0; i < nx; i ++) { b16(h, xs[i].type); b16(h, (unsigned)xs[i].n); bput(h, xs[i].b, xs[i].n); }
+		bl = (long)(h->n - xpos - 2);
+		if (has[D_BLOCKLEN]) {
+			long dl = 1 + (long)vf_below(r, 3);
+			if (bl < dl || vf_below(r, 2)) bl += dl; else bl -= dl;
+		}
+		bset16(h, xpos, (unsigned)bl);
+		if (has[D_TRAIL]) { size_t g = 1 + vf_below(r, 8); for (j = 0; j < g; j ++) b8(h, vf_below(r, 256)); }
+	}
+	{
+		long ml = (long)(h->n - 4);
+		if (has[D_MSG_SHORT]) ml -= 1 + (long)vf_below(r, 4);
+		if (has[D_MSG_LONG]) ml += 1 + (long)vf_below(r, 4);
+		bset16(h, lenpos, (unsigned)ml);
+	}
+
+	/* second record: the start of the Certificate message (or of something that is not one); ChangeCipherSpec after a resumed session */
+	h2->n = 0;
+	*rv2 = *rv;
+	*type2 = 22;
+	second = vf_below(r, 100) < 50 || has[D_RV2] || has[D_NEXT_TYPE] || has[D_NEXT_CCS] || has[D_RESUME_BAD_CCS] || has[D_RESUME_NO_CCS];
+	if (second && (has[D_NEXT_CCS] || (echo && !has[D_RESUME_NO_CCS] && !has[D_NEXT_TYPE]))) {
+		*type2 = 20;
+		b8(h2, 1);
+		if (has[D_RESUME_BAD_CCS]) { if (vf_below(r, 2)) h2->b[0] = (unsigned char)(vf_below(r, 2) ? 2 : 0); else b8(h2, 1); }
+	} else if (second) {
+		const br_x509_certificate *xc = &tp_fx.ch_srv_rsa[0];
+		size_t dl = xc->data_len, take = vf_below(r, 300), cut;
+		unsigned mt = 11;
+		if (has[D_NEXT_TYPE]) { static const unsigned ty[] = { 12, 14, 2, 16, 20, 13, 1, 22, 255 }; mt = ty[vf_below(r, 9)]; }
+		if (take > dl) take = dl;
+		b8(h2, mt); b8(h2, (unsigned)((dl + 6) >> 16)); b16(h2, (unsigned)((dl + 6) & 0xFFFF));
+		b8(h2, (unsigned)((dl + 3) >> 16)); b16(h2, (unsigned)((dl + 3) & 0xFFFF));
+		b8(h2, (unsigned)(dl >> 16)); b16(h2, (unsigned)(dl & 0xFFFF));
+		bput(h2, xc->data, take);
+		/* sometimes the record ends inside the message header */
+		cut = vf_below(r, 5) == 0 ? 1 + vf_below(r, 10) : h2->n;
+		if (cut < h2->n) h2->n = cut;
+	}
+	if (second && has[D_RV2]) { do { *rv2 = 0x0300 + vf_below(r, 5); } while (*rv2 == *rv); }
+}
+
+static size_t
+srv_pump(tp_ep *cli, tp_fifo *c2s, tp_fifo *s2c, tm_mon *mon, vf_rng *r, unsigned chunk)
+{
+	int guard = 0;
+	size_t out = 0;
+	while (guard ++ < 200000) {
+		unsigned st = br_ssl_engine_current_state(cli->eng);
+		size_t k;
+		if (st & BR_SSL_SENDREC) {
+			k = tp_act_sendrec(cli, c2s, 1 + vf_below(r, 4000));
+			rm_feed(&mon->rm, 0, c2s->data + (c2s->wr - k), k);
+			c2s->rd = c2s->wr;
+			out += k;
+			continue;
+		}
+		if ((st & BR_SSL_RECVREC) && tp_fifo_len(s2c) > 0) {
+			tp_act_recvrec(cli, s2c, 1 + vf_below(r, chunk));
+			continue;
+		}
+		break;
+	}
+	return out;
+}
+
+static void
+run_scripted_server(long long seed, long idx, side *C, vf_rng *r)
+{
+	tp_ep cli;
+	tp_cfg cc;
+	tp_fifo c2s, s2c;
+	tm_mon mon;
+	srv_hook hook;
+	cli_facts f;
+	bb h, h2;
+	unsigned rv, rv2, type2 = 22, sp, chunk = 0;
+	unsigned char rec[5];
+	int rc, defs[4], ndefs = 0, i, u = 14;
+	size_t out_after = 0, left = 0;
+	ep_obs oc;
+
+	memset(&cli, 0, sizeof cli);
+	memset(&f, 0, sizeof f);
+	C->cert = 0;
+	/* the client: ALPN, no SNI and the mismatch flag more often than in the other kinds */
+	if (C->nalpn == 0 && vf_below(r, 100) < 45) random_alpn(r, C, 1 + vf_below(r, 3));
+	if (C->nalpn != 0) { if (vf_below(r, 2)) C->flags |= BR_OPT_FAIL_ON_ALPN_MISMATCH; else C->flags &= ~(uint32_t)BR_OPT_FAIL_ON_ALPN_MISMATCH; }
+	if (vf_below(r, 100) < 15) { C->has_sni = 0; C->sni[0] = 0; }
+	if (C->nsuites < 90 && !in_list(C, 0x5600) && vf_below(r, 100) < 10) C->suites[C->nsuites ++] = 0x5600;
+	sp = vf_below(r, 100);
+	if (sp < 10) { C->curves = 0; keep_kx(C, 1u << TP_KX_RSA); }      /* no EC at all: no supported_groups / ec_point_formats */
+	else if (sp < 20) { f.nosig = 1; keep_kx(C, (1u << TP_KX_RSA) | (1u << TP_KX_ECDH_RSA) | (1u << TP_KX_ECDH_ECDSA)); }
+	hook.sd = C; hook.nosig = f.nosig; hook.has_sess = 0;
+	/* a session to resume: version in range, a listed suite that fits it */
+	if (vf_below(r, 100) < 22) {
+		int t;
+		f.sver = C->vmin + vf_below(r, C->vmax - C->vmin + 1);
+		for (t = 0; t < 100 && !f.has_sess; t ++) {
+			const tp_suite_info *si = tp_suite_find(C->suites[vf_below(r, (uint32_t)C->nsuites)]);
+			if (si && (f.sver >= 0x0303 || !si->tls12only)) { f.ssuite = si->id; f.has_sess = 1; }
+		}
+		if (f.has_sess) {
+			vf_bytes(r, f.sid, 32);
+			memset(&hook.sess, 0, sizeof hook.sess);
+			memcpy(hook.sess.session_id, f.sid, 32);
+			hook.sess.session_id_len = 32;
+			hook.sess.version = (uint16_t)f.sver;
+			hook.sess.cipher_suite = (uint16_t)f.ssuite;
+			vf_bytes(r, hook.sess.master_secret, 48);
+			hook.has_sess = 1;
+		}
+	}
+	side_to_cfg(C, 0, &cc, r);
+	cc.resume = f.has_sess;
+	cc.pre_reset = pre_reset_srv; cc.pre_reset_arg = &hook;
+	/* small buffers: the client asks for a maximum fragment length */
+	if (vf_below(r, 100) < 50) {
+		u = 9 + (int)vf_below(r, 4);
+		cc.layout = TP_LAYOUT_SPLIT2;
+		cc.buflen = ((size_t)1 << u) + 325 + (vf_below(r, 2) ? vf_below(r, 180) : 0);
+		cc.buflen_out = ((size_t)1 << u) + 85 + (vf_below(r, 2) ? vf_below(r, 400) : 0);
+	}
+	f.C = C;
+	f.mfl_code = u < 14 ? u - 8 : 0;
+	f.sent_sni = C->has_sni && C->sni[0] != 0;
+	f.sent_alpn = C->nalpn != 0;
+	f.sent_curves = C->curves != 0;
+
+	/* defects: none / one / a few */
+	sp = vf_below(r, 100);
+	{
+		int want = sp < 40 ? 0 : (sp < 90 ? 1 : 2 + (int)vf_below(r, 2)), t;
+		for (t = 0; t < 200 && ndefs < want; t ++) {
+			int d = (int)vf_below(r, D_COUNT), dup = 0;
+			if (ndefs == 0 && want == 1) {
+				/* the rarer client shapes are there for their own defects */
+				if (f.nosig && vf_below(r, 100) < 35) d = D_SIG_UNSOL;
+				if (!f.sent_curves && vf_below(r, 100) < 45) d = vf_below(r, 2) ? D_CURVES_UNSOL : D_POINTS_UNSOL;
+				if (in_list(C, 0x5600) && vf_below(r, 100) < 20) d = D_SUITE_5600;
+				if (f.sent_alpn && vf_below(r, 100) < 12) d = vf_below(r, 3) ? D_ALPN_OTHER : D_ALPN_TWO;
+				if (f.mfl_code && vf_below(r, 100) < 8) d = vf_below(r, 2) ? D_MFL_OTHER : D_MFL_LEN;
+				if (vf_below(r, 100) < 4) d = vf_below(r, 2) ? D_NEXT_TYPE : D_NEXT_CCS;
+				if (f.has_sess && vf_below(r, 100) < 40) {
+					static const int rd[] = { D_RESUME_VER, D_RESUME_SUITE, D_RESUME_BAD_CCS, D_RESUME_NO_CCS, D_RESUME_SUITE };
+					d = rd[vf_below(r, 5)];
+				}
+			}
+			if (!defect_applicable(d, &f)) continue;
+			for (i = 0; i < ndefs; i ++) if (defs[i] == d) dup = 1;
+			if (!dup) defs[ndefs ++] = d;
+		}
+	}
+
+	tp_fifo_init(&c2s); tp_fifo_init(&s2c);
+	tm_init(&mon, NULL, &mon);
+	mon.check_app = 0;
+	mon.rm.on_hs = on_hs;
+	mon.rec_hook = rec_hook;
+	memset(&W, 0, sizeof W);
+	rc = tp_ep_start(&cli, &cc);
+	h.n = h2.n = 0; rv = rv2 = 0;
+	if (rc) {
+		static const unsigned chunks[] = { 1, 17, 600, 600 };
+		chunk = chunks[vf_below(r, 4)];
+		srv_pump(&cli, &c2s, &s2c, &mon, r, 1);         /* the ClientHello goes out */
+		build_server_hello(r, &f, defs, ndefs, &h, &rv, &h2, &rv2, &type2);
+		rec[0] = 22; rec[1] = (unsigned char)(rv >> 8); rec[2] = (unsigned char)rv;
+		rec[3] = (unsigned char)(h.n >> 8); rec[4] = (unsigned char)h.n;
+		tp_fifo_put(&s2c, rec, 5); tp_fifo_put(&s2c, h.b, h.n);
+		if (h2.n) {
+			rec[0] = (unsigned char)type2; rec[1] = (unsigned char)(rv2 >> 8); rec[2] = (unsigned char)rv2;
+			rec[3] = (unsigned char)(h2.n >> 8); rec[4] = (unsigned char)h2.n;
+			tp_fifo_put(&s2c, rec, 5); tp_fifo_put(&s2c, h2.b, h2.n);
+		}
+		out_after = srv_pump(&cli, &c2s, &s2c, &mon, r, chunk);
+		left = tp_fifo_len(&s2c);
+	}
+	rm_drain(&mon.rm, 0);
+	observe(&cli, &oc);
+	fprintf(LOG, "{\"i\":%ld,\"seed\":%lld,\"kind\":\"scripted_srv\",\"reset\":[%d,1],", idx, seed, rc);
+	js_side(LOG, "C", C, 0);
+	fprintf(LOG, ",\"cx\":{\"ibuf\":%zu,\"obuf\":%zu,\"split\":%d,\"nosig\":%d}", cc.buflen, cc.buflen_out,
+		cc.layout == TP_LAYOUT_SPLIT2, f.nosig);
+	if (f.has_sess) { fprintf(LOG, ",\"sess\":{\"ver\":%u,\"suite\":%u,\"id\":", f.sver, f.ssuite); js_hexv(LOG, f.sid, 32); fputc('}', LOG); }
+	else fputs(",\"sess\":null", LOG);
+	fputs(",\"plan\":[", LOG);
+	for (i = 0; i < ndefs; i ++) fprintf(LOG, "%s\"%s\"", i ? "," : "", defect_names[defs[i]]);
+	fputs("],\"recs\":[", LOG);
+	if (rc) {
+		fprintf(LOG, "[22,%u,", rv); js_hexv(LOG, h.b, h.n); fputc(']', LOG);
+		if (h2.n) { fprintf(LOG, ",[%u,%u,", type2, rv2); js_hexv(LOG, h2.b, h2.n); fputc(']', LOG); }
+	}
+	fprintf(LOG, "],\"chunk\":%u,\"left\":%zu,\"out_after\":%zu,", chunk, left, out_after);
+	js_wire(LOG, &mon.rm); fputc(',', LOG);
+	js_endpoint(LOG, "oc", &oc, -1);
+	fprintf(LOG, ",\"mfln\":%d,\"renegst\":%d}\n", rc ? (int)br_ssl_engine_get_mfln_negotiated(cli.eng) : -1, rc ? (int)cli.eng->reneg : -1);
+	vf_stat("scripted_srv_hellos", 1);
+	vf_stat(oc.err == 0 && !oc.closed ? "scripted_srv_client_waiting" : "scripted_srv_client_failed", 1);
+	vf_distinct("config", "scripted_srv/c%04x-%04x/f%x/a%zu/sni%d/m%d/ns%d/nc%d/d%d.%d",
+		C->vmin, C->vmax, (unsigned)C->flags, C->nalpn, f.sent_sni, f.mfl_code, f.nosig, !f.sent_curves,
+		ndefs, ndefs ? defs[0] : -1);
+	if (f.has_sess) vf_stat("scripted_srv_with_session", 1);
+	vf_distinct("outcome", "scripted_srv/%d/%04x/%04x/%d", oc.err, oc.ver, oc.suite, oc.has_proto);
+	rm_free(&mon.rm);
+	tp_ep_free(&cli);
+	tp_fifo_free(&c2s); tp_fifo_free(&s2c);
+}
+
+/* ------------------------------------------------------------------ */
 
 int
 main(int argc, char **argv)
@@ -876,6 +1425,7 @@ main(int argc, char **argv)
 			seed, idx, kind_names[kind], seed, idx);
 		vf_stat("cases", 1);
 		if (kind == K_SCRIPTED) run_scripted(seed, idx, &S, &r);
+		else if (kind == K_SCRIPTED_SRV) run_scripted_server(seed, idx, &C, &r);
 		else run_pair(seed, idx, kind, &C, &S, &r);
 		if (only >= 0) break;
 	}
